@@ -363,6 +363,24 @@ static const uint8_t R[64] = {
   2, 2, 2, 2, 2, 2, 2, 2, 3, 3, 4, 2, 1, 1, 2, 0,
 };
 
+/* Rmin[] and Rmax[] are the lowest and the highest value reached while the
+   delta steps of a pattern are applied one by one, starting from zero (biased
+   by 3 like R[]).  They allow to range-check every single step of a pattern,
+   not only the sum of its steps.  */
+static const uint8_t Rmin[64] = {
+  3, 3, 3, 3, 3, 3, 3, 3, 3, 3, 3, 3, 3, 3, 3, 3,
+  3, 3, 3, 3, 3, 3, 3, 3, 3, 3, 3, 3, 3, 3, 3, 3,
+  3, 3, 3, 3, 3, 3, 3, 3, 3, 3, 3, 3, 3, 3, 3, 2,
+  2, 2, 2, 2, 2, 2, 2, 2, 2, 2, 2, 2, 1, 1, 1, 0,
+};
+
+static const uint8_t Rmax[64] = {
+  3, 3, 3, 3, 3, 3, 3, 3, 3, 3, 3, 3, 3, 3, 3, 3,
+  3, 3, 3, 3, 3, 3, 3, 3, 3, 3, 3, 3, 3, 3, 3, 3,
+  4, 4, 4, 4, 4, 4, 4, 4, 5, 5, 6, 5, 4, 4, 4, 4,
+  3, 3, 3, 3, 3, 3, 3, 3, 3, 3, 4, 3, 3, 3, 3, 3,
+};
+
 
 #define DECLARE unsigned w; uint64_t v; const uint32_t *next, *limit,   \
                                           *tt_limit; uint32_t *tt
@@ -581,10 +599,10 @@ retrieve(struct decoder_state *restrict ds, struct bitstream *bs)
       while (rs->j < rs->alpha_size) {
         unsigned k = PEEK(6u);
 
-        rs->code_len[rs->j] += R[k];
-        if (unlikely(rs->code_len[rs->j] < 3 + MIN_CODE_LENGTH ||
-                     rs->code_len[rs->j] > 3 + MAX_CODE_LENGTH))
+        if (unlikely(rs->code_len[rs->j] + Rmin[k] < 3 + MIN_CODE_LENGTH ||
+                     rs->code_len[rs->j] + Rmax[k] > 3 + MAX_CODE_LENGTH))
           return ERR_DELTA;
+        rs->code_len[rs->j] += R[k];
         rs->code_len[rs->j] -= 3;
         k = L[k];
         if (k != 6u) {
